@@ -106,14 +106,14 @@ func checkTransform(r *ev.Run, nt named, pts []model3d.Coord3D) {
 		mid := t.Apply(p)
 		if l := lip(inv.Apply, mid); l > 1e4 {
 			r.Skipped(1)
-		} else if q := inv.Apply(mid); q.Dist(p) > scale(p)*l {
+		} else if q := inv.Apply(mid); !(q.Dist(p) <= scale(p)*l) {
 			r.Violation("inverse/"+fam(nt.name), fmt.Sprintf("%s: Inverse(Apply(%v)) = %v", nt.name, p, q), c)
 			return
 		}
 		mid = inv.Apply(p)
 		if l := lip(t.Apply, mid); l > 1e4 {
 			r.Skipped(1)
-		} else if q := t.Apply(mid); q.Dist(p) > nt.tol*(1+p.Norm()+mid.Norm())*l {
+		} else if q := t.Apply(mid); !(q.Dist(p) <= nt.tol*(1+p.Norm()+mid.Norm())*l) {
 			r.Violation("inverse/"+fam(nt.name), fmt.Sprintf("%s: Apply(Inverse(%v)) = %v", nt.name, p, q), c)
 			return
 		}
@@ -145,7 +145,7 @@ func checkTransform(r *ev.Run, nt named, pts []model3d.Coord3D) {
 			p, q := pts[i], pts[(i*5+3)%len(pts)]
 			r.Eval(1)
 			want := t.Apply(p).Dist(t.Apply(q))
-			if got := dt.ApplyDistance(p.Dist(q)); math.Abs(got-want) > 1e-9*(1+want) {
+			if got := dt.ApplyDistance(p.Dist(q)); !(math.Abs(got-want) <= 1e-9*(1+want)) {
 				r.Violation("distance/"+fam(nt.name), fmt.Sprintf("%s: ApplyDistance(%g) = %g but the transformed points are %g apart", nt.name, p.Dist(q), got, want), c)
 				break
 			}
@@ -210,7 +210,7 @@ func checkWrapped(r *ev.Run, nt named, shapes []ref.Shape3, pts []model3d.Coord3
 			if s.SDF(p) < 0 {
 				want = -want
 			}
-			if got := tsdf.SDF(t.Apply(p)); math.Abs(got-want) > 1e-8*(1+math.Abs(want)+s.Extent) {
+			if got := tsdf.SDF(t.Apply(p)); !(math.Abs(got-want) <= 1e-8*(1+math.Abs(want)+s.Extent)) {
 				r.Violation("TransformSDF/value/"+fam(nt.name), fmt.Sprintf("%s of %s: SDF(T p)=%g, want the scaled original distance %g (p=%v)", nt.name, s.Name, got, want, p), c)
 				break
 			}
@@ -263,20 +263,20 @@ func checkWrapped(r *ev.Run, nt named, shapes []ref.Shape3, pts []model3d.Coord3
 				}
 				for i := range want {
 					checked++
-					if math.Abs(got[i].Scale-want[i].Scale) > 1e-7*(1+want[i].Scale) {
+					if !(math.Abs(got[i].Scale-want[i].Scale) <= 1e-7*(1+want[i].Scale)) {
 						r.Violation("TransformCollider/ray-parameter/"+fam(nt.name), fmt.Sprintf("%s of %s: hit at parameter %g, the original hit is at %g (same parameter expected: images of the original hits)", nt.name, s.Name, got[i].Scale, want[i].Scale), rc)
 						break
 					}
 					wn := t.Apply(want[i].Normal).Sub(t0)
 					wn = wn.Scale(1 / wn.Norm())
-					if math.Abs(got[i].Normal.Norm()-1) > 1e-6 || got[i].Normal.Dist(wn) > 1e-6 {
+					if !(math.Abs(got[i].Normal.Norm()-1) <= 1e-6) || !(got[i].Normal.Dist(wn) <= 1e-6) {
 						r.Violation("TransformCollider/normal/"+fam(nt.name), fmt.Sprintf("%s of %s: normal %v, want the unit linear image %v of the original normal", nt.name, s.Name, got[i].Normal, wn), rc)
 						break
 					}
 				}
 				f1, ok1 := coll.FirstRayCollision(ray)
 				f2, ok2 := tc.FirstRayCollision(tray)
-				if ok1 != ok2 || (ok1 && math.Abs(f1.Scale-f2.Scale) > 1e-7*(1+f1.Scale)) {
+				if ok1 != ok2 || (ok1 && !(math.Abs(f1.Scale-f2.Scale) <= 1e-7*(1+f1.Scale))) {
 					r.Violation("TransformCollider/first/"+fam(nt.name), fmt.Sprintf("%s of %s: first hit (%v,%g), original (%v,%g)", nt.name, s.Name, ok2, f2.Scale, ok1, f1.Scale), rc)
 				}
 			}
@@ -300,7 +300,7 @@ func checkWrapped(r *ev.Run, nt named, shapes []ref.Shape3, pts []model3d.Coord3
 				r.Eval(1)
 				want := mb.MetaballField(p)
 				// the transformed field is expressed in transformed distances
-				if got := tm.MetaballField(t.Apply(p)); math.Abs(got-want) > 1e-8*(1+math.Abs(want)) && math.Abs(got-dt.ApplyDistance(math.Abs(want))*sign(want)) > 1e-8*(1+math.Abs(want)) {
+				if got := tm.MetaballField(t.Apply(p)); !(math.Abs(got-want) <= 1e-8*(1+math.Abs(want))) && !(math.Abs(got-dt.ApplyDistance(math.Abs(want))*sign(want)) <= 1e-8*(1+math.Abs(want))) {
 					r.Violation("TransformMetaball/field/"+fam(nt.name), fmt.Sprintf("%s of %s: field(T p)=%g, original field %g", nt.name, s.Name, got, want), c)
 					break
 				}
@@ -369,7 +369,7 @@ func check2D(r *ev.Run) {
 		}
 		for _, p := range pts {
 			r.Eval(1)
-			if inv.Apply(t.Apply(p)).Dist(p) > 1e-9*(1+p.Norm()+t.Apply(p).Norm()) || t.Apply(inv.Apply(p)).Dist(p) > 1e-9*(1+p.Norm()+inv.Apply(p).Norm()) {
+			if !(inv.Apply(t.Apply(p)).Dist(p) <= 1e-9*(1+p.Norm()+t.Apply(p).Norm())) || !(t.Apply(inv.Apply(p)).Dist(p) <= 1e-9*(1+p.Norm()+inv.Apply(p).Norm())) {
 				r.Violation("inverse/"+fam(nt.name), nt.name+": not inverted at "+fmt.Sprint(p), c)
 				break
 			}
@@ -421,7 +421,7 @@ func check2D(r *ev.Run) {
 				p := s.Center.Add(p0.Scale(s.Extent / 1.5))
 				r.Eval(1)
 				want := dt.ApplyDistance(math.Abs(s.SDF(p))) * sign(s.SDF(p))
-				if got := tsdf.SDF(t.Apply(p)); math.Abs(got-want) > 1e-8*(1+math.Abs(want)+s.Extent) {
+				if got := tsdf.SDF(t.Apply(p)); !(math.Abs(got-want) <= 1e-8*(1+math.Abs(want)+s.Extent)) {
 					r.Violation("TransformSDF/value/"+fam(nt.name), fmt.Sprintf("%s of %s: %g want %g", nt.name, s.Name, got, want), c)
 					break
 				}
@@ -461,11 +461,11 @@ func check2D(r *ev.Run) {
 				for i := range want2 {
 					wn := t.Apply(want2[i].Normal).Sub(t0)
 					wn = wn.Scale(1 / wn.Norm())
-					if math.Abs(got2[i].Scale-want2[i].Scale) > 1e-7*(1+want2[i].Scale) {
+					if !(math.Abs(got2[i].Scale-want2[i].Scale) <= 1e-7*(1+want2[i].Scale)) {
 						r.Violation("TransformCollider/ray-parameter/"+fam(nt.name), fmt.Sprintf("%s of %s: parameter %g, original %g", nt.name, s.Name, got2[i].Scale, want2[i].Scale), rc)
 						break
 					}
-					if got2[i].Normal.Dist(wn) > 1e-6 {
+					if !(got2[i].Normal.Dist(wn) <= 1e-6) {
 						r.Violation("TransformCollider/normal/"+fam(nt.name), fmt.Sprintf("%s of %s: normal %v want %v", nt.name, s.Name, got2[i].Normal, wn), rc)
 						break
 					}
